@@ -96,17 +96,26 @@ def term(t):
     return k
 
 
-def body(b, show_cleanup=False):
+def _noise(x):
+    m = x.get('mac', '')
+    return m.startswith('tracing') or 'FormatLiteral' in m
+
+
+def body(b, show_cleanup=False, brief=False):
     out = ['fn %s  [%s:%d-%d]%s' % (b['qpath'], b['file'], b['lo'], b['hi'], ' coroutine' if b.get('coroutine') else '')]
-    for i, l in enumerate(b['locals']):
+    for i, l in enumerate(b['locals'] if not brief else []):
         out.append('    let _%d: %s;%s' % (i, l['ty'], '  // ' + l['n'] if 'n' in l else ''))
     for v in b.get('vdi', []):
         out.append('    debug %s => %s' % (v['n'], place(v['p'])))
     for i, blk in enumerate(b['blocks']):
         if blk.get('cl') and not show_cleanup:
             continue
+        if brief and _noise(blk['t']) and all(_noise(s) for s in blk['s']):
+            continue
         out.append('  bb%d%s:' % (i, ' (cleanup)' if blk.get('cl') else ''))
         for s in blk['s']:
+            if brief and _noise(s):
+                continue
             tag = '  // L%d%s' % (s['ln'], ' ' + s.get('mac', '') if s.get('ex') else '')
             if 'd' in s:
                 out.append('      %s = %s;%s' % (place(s['d']), rvalue(s['r']), tag))
